@@ -405,6 +405,52 @@ Proof.
   specialize (N5 D1 D2 D3 I). discriminate.
 Qed.
 
+(** * Version -> handshaker mapping *)
+
+Theorem run_handshaker_via_kind : forall v l st,
+  run_handshaker v l st =
+  match versioned_handshaker v with
+  | None => HsNoVersion
+  | Some k => match check_of_kind k l st with None => HsOk v | Some e => HsRefused v e end
+  end.
+Proof.
+  intros v l st. unfold run_handshaker, versioned_handshaker.
+  destruct (v =? v200); [reflexivity|]. destruct (v =? v033); [reflexivity|].
+  destruct (v =? v032); [reflexivity|]. destruct (v =? v031); reflexivity.
+Qed.
+
+(** Each version that exchanges the genesis hash is mapped to a handshaker that checks it:
+    for 0.3.2, 0.3.3 and 2.0.0 an accepted status has the local genesis, the connection's
+    peer id and a chain id that decodes to the local one. *)
+Theorem versioned_handshaker_checks_genesis : forall v k l st,
+  In v [v032; v033; v200] -> versioned_handshaker v = Some k ->
+  check_of_kind k l st = None ->
+  st_genesis st = l_genesis l /\ st_peer_id st = l_peer_id l /\
+  exists rc, chain_id_read (st_chain_id st) = Some rc /\
+    (rc = l_chain_id_at l (st_best_height st) \/ rc = l_static_chain_id l).
+Proof.
+  intros v k l st Hv Hk Hc.
+  destruct Hv as [<-|[<-|[<-|[]]]]; vm_compute in Hk; inversion Hk; subst k; simpl in Hc.
+  - apply v032_accept_iff in Hc as ((Hr & Hg & Hp) & _). eauto 8.
+  - apply v033_accept_iff in Hc as ((Hr & Hg & Hp) & _). eauto 8.
+  - apply v200_accept_iff in Hc as ((Hr & Hg & Hp) & _). eauto 8.
+Qed.
+
+(** The four accepted versions have a handshaker, pairwise of different kinds; every other
+    version has none. *)
+Theorem versioned_handshaker_table :
+  versioned_handshaker v031 = Some HK030 /\ versioned_handshaker v032 = Some HK032 /\
+  versioned_handshaker v033 = Some HK033 /\ versioned_handshaker v200 = Some HK200 /\
+  forall v, ~ In v accepted_inbound_versions -> versioned_handshaker v = None.
+Proof.
+  repeat split; try reflexivity. intros v Hn. unfold versioned_handshaker, accepted_inbound_versions in *.
+  destruct (v =? v200) eqn:E1; [apply N.eqb_eq in E1; exfalso; apply Hn; simpl; auto|].
+  destruct (v =? v033) eqn:E2; [apply N.eqb_eq in E2; exfalso; apply Hn; simpl; auto|].
+  destruct (v =? v032) eqn:E3; [apply N.eqb_eq in E3; exfalso; apply Hn; simpl; auto|].
+  destruct (v =? v031) eqn:E4; [apply N.eqb_eq in E4; exfalso; apply Hn; simpl; auto|].
+  reflexivity.
+Qed.
+
 (** * F20: the 0.3.1 handshaker has no genesis check and is reachable by negotiation *)
 
 Definition ex_chain : chain_id := mk_chain_id 3 true true [97;101;114;103;111] [100;112;111;115].
